@@ -57,14 +57,17 @@ MC_Prog == <<
   P("AddEdge",     "S",  "n0", "e1", "tA", "tA", "p0"),   \* 31
   P("DelEdgeFrom", "S",  "S",  "e0", "tA", "tA", "p0"),   \* 32
   P("SetEdgeAtom", "S",  "S",  "e0", "tA", "tA", "p0"),   \* 33
-  P("DelNodeIso",  "S",  "S",  "e0", "tA", "tA", "p0")   \* 34
+  P("DelNodeIso",  "S",  "S",  "e0", "tA", "tA", "p0"),   \* 34
+  P("UpsertNode",  "S",  "S",  "e0", "tA", "tA", "p0"),   \* 35  (+ read of att(n2) inside a descended instance)
+  P("SetAtom",     "S",  "S",  "e0", "tA", "tA", "p0")    \* 36  (+ OpenPortal/RequireExisting on its own declared slot)
 >>
-NoF == [k \in 1..34 |-> ""]
+NoF == [k \in 1..36 |-> ""]
 \* bank 1 (11..16): undeclared reads + panic; bank 2 (17..22): undeclared writes / cross-instance / instance op;
 \* bank 3 (23..28): adjacency read, portal, edge-from write, instance delete, two omissions; bank 4 (29..34): one omitted class each
 AllFault == [NoF EXCEPT ![11] = "read_node", ![12] = "read_natt", ![13] = "write_node", ![14] = "read_eatt", ![15] = "read_edge", ![16] = "panic",
                         ![17] = "write_att", ![18] = "cross_warp", ![19] = "write_edge", ![20] = "del_edge", ![21] = "instance_upsert", ![22] = "del_node",
-                        ![23] = "read_adj", ![24] = "open_portal", ![25] = "write_edge_from", ![26] = "instance_delete"]
+                        ![23] = "read_adj", ![24] = "open_portal", ![25] = "write_edge_from", ![26] = "instance_delete",
+                        ![35] = "read_natt_n2", ![36] = "open_portal_existing"]
 AllOmit  == [NoF EXCEPT ![27] = "a_write", ![28] = "a_read",
                         ![29] = "a_read", ![30] = "a_write", ![31] = "n_write", ![32] = "e_write", ![33] = "e_read", ![34] = "n_read"]
 MC_Fault == AllFault
@@ -84,6 +87,7 @@ ViolatorSlots == {<<11, "w0", "n2">>, <<12, "w0", "n1">>, <<13, "w0", "n2">>, <<
                   <<16, "w0", "n2">>, <<11, "w1", "n1">>}
 Banks == IF Variant = 0 THEN {} ELSE IF Variant = 5 THEN {0, 1, 2, 3} ELSE {Variant - 1}
 Violators == {<<c[1] + 6 * bk, c[2], c[3]>> : c \in ViolatorSlots, bk \in Banks}
+             \cup (IF Variant = 5 THEN {<<35, "w1", "n0">>, <<35, "w1", "n1">>, <<36, "w0", "n2">>} ELSE {})
 MC_CandU == IF Variant = 0 THEN Honest ELSE Honest \cup Violators
 
 Build(ops) == ApplyOps(EmptyState, ops).s
